@@ -493,7 +493,9 @@ class SDMFSlotWriteProxy:
 
     def _get_offsets_tuple(self):
         offsets = self._get_offsets_dict()
-        return tuple([(key, value) for key, value in offsets.items()])
+        # sorted: the tuple is part of the version identifier (verinfo), so
+        # it must not depend on the order in which the dict was filled in
+        return tuple(sorted(offsets.items()))
 
 
     def _pack_offsets(self):
@@ -1102,7 +1104,8 @@ class MDMFSlotWriteProxy:
 
 
     def _get_offsets_tuple(self):
-        return tuple([(key, value) for key, value in self._offsets.items()])
+        # sorted: see SDMFSlotWriteProxy._get_offsets_tuple
+        return tuple(sorted(self._offsets.items()))
 
 
     def get_verinfo(self):
